@@ -840,8 +840,11 @@ impl Prop for C01 {
     fn id(&self) -> &'static str {
         "C01"
     }
+    fn supplement(&self, tier: Tier, seed: u64) -> (Vec<crate::world::Violation>, Value) {
+        super::common::msim_supplement("C01", "bulkhead", tier, seed)
+    }
     fn engine(&self) -> &'static str {
-        "asim + tsim (shuttle)"
+        "asim + tsim (shuttle) + msim (Miri)"
     }
     fn gen(&self, rng: &mut Rng, _t: Tier) -> Value {
         if rng.chance(1, 12) {
@@ -885,8 +888,11 @@ impl Prop for C07 {
     fn id(&self) -> &'static str {
         "C07"
     }
+    fn supplement(&self, tier: Tier, seed: u64) -> (Vec<crate::world::Violation>, Value) {
+        super::common::msim_supplement("C07", "bulkhead", tier, seed)
+    }
     fn engine(&self) -> &'static str {
-        "asim + tsim (shuttle)"
+        "asim + tsim (shuttle) + msim (Miri)"
     }
     fn gen(&self, rng: &mut Rng, _t: Tier) -> Value {
         if rng.chance(1, 12) {
